@@ -63,12 +63,27 @@ func commonPrefix(paths []string) string {
 		for _, other := range paths {
 			if index >= len(other) || other[index] != c {
 				// no more prefix
-				return first[:index]
+				return trimToDirectory(first[:index], paths)
 			}
 		}
 	}
 
-	return first
+	return trimToDirectory(first, paths)
+}
+
+// trimToDirectory makes sure the common prefix stops at a path separator:
+// the directories "/src/pa1" and "/src/pa2" share "/src", not "/src/pa".
+func trimToDirectory(prefix string, paths []string) string {
+	if prefix == "" || os.IsPathSeparator(prefix[len(prefix)-1]) {
+		return prefix
+	}
+	for _, p := range paths {
+		if len(p) > len(prefix) && !os.IsPathSeparator(p[len(prefix)]) {
+			// the prefix ends in the middle of a path element
+			return filepath.Dir(prefix)
+		}
+	}
+	return prefix
 }
 
 // LoadSources returns for each source file, the `*packages.Package` containing it.
